@@ -183,6 +183,18 @@ def frags_src(frags, quote=True):
     return '"%s"' % s if quote else s
 
 
+def path_ast_of_plain_argument(frags):
+    """PATH argument WITHOUT relativity option -> model AST, as parse_path.py decides by position:
+    constant -> constant path (absolute iff it starts with '/'); first fragment a reference that is the whole argument
+    or is followed by text starting with '/' -> that reference is a path or a string, the rest its suffix; anything
+    else -> default relativity, every reference a path component"""
+    if len(frags) == 1 and frags[0][0] == 'c':
+        return ('pconst', None if frags[0][1].startswith('/') else 'REL_CWD', frags[0][1])
+    if frags[0][0] == 's' and (len(frags) == 1 or (frags[1][0] == 'c' and frags[1][1].startswith('/'))):
+        return ('pref', frags[0][1], frags[1:], 'REL_CWD')
+    return ('prelopt', 'REL_CWD', frags)
+
+
 def frags_names(frags):
     return [f[1] for f in frags if f[0] == 's']
 
@@ -238,7 +250,7 @@ class Gen:
     def gen_path(self):
         """-> (source text, model AST)"""
         rng = self.rng
-        form = rng.weighted([('relopt', 30), ('relsym', 18), ('ref', 30), ('const', 8), ('deflt', 8), ('abs', 6)])
+        form = rng.weighted([('relopt', 26), ('relsym', 16), ('ref', 22), ('free', 18), ('const', 6), ('deflt', 6), ('abs', 6)])
         if self.clean:
             if form == 'relsym' and self.pick(('path',)) is None:
                 form = 'relopt'
@@ -252,6 +264,24 @@ class Gen:
         if form == 'abs':
             s = '/' + rng.choice(PATH_CONSTS)
             return s, ('pconst', None, s)
+        if form == 'free':
+            # any sequence of text and references: the position decides what each reference must be
+            shape = rng.choice(['sT', 'ss', 'sTs', 'Ts', 'TsT', 'sSs', 'Tss', 's', 'sS', 'ssS'])
+            fr = []
+            for i, ch in enumerate(shape):
+                if ch == 'T':
+                    fr.append(('c', rng.choice(['post', 'x', '.d', 'p-q', 'y/z'])))
+                elif ch == 'S':
+                    fr.append(('c', '/' + rng.choice(PATH_CONSTS)))
+                else:
+                    is_path_pos = i == 0 and (len(shape) == 1 or shape[1] == 'S')
+                    want = ('path', 'string') if is_path_pos else ('string',)
+                    if not self.clean and rng.chance(0.5):
+                        want = ('path', 'string')
+                    fr.append(('s', self.pick(want)))
+            if any(f[1] is None for f in fr):
+                fr = [('c', 'x')]
+            return frags_src(fr, quote=rng.chance(0.4)), path_ast_of_plain_argument(fr)
         sfx = self.gen_path_suffix()
         if form == 'relopt':
             rel = rng.choice(REL_ORDER)
@@ -576,7 +606,30 @@ def via_def(tid, name, target, k=0):
                 val=('prelopt', 'REL_TMP', [('s', target)]))
 
 
-CONTEXTS = (['data', 'str', 'path-or-str', 'rel-base', 'file-name', 'list-elem', 'act-arg'] +
+POSITION_CONTEXTS = {
+    # name: (type of the definition Z, source of its value with {T} = the reference, value AST builder)
+    'str-lone-quoted': ('string', '"{T}"', lambda t: ('str', [('s', t)])),
+    'str-middle': ('string', '"a{T}b"', lambda t: ('str', [('c', 'a'), ('s', t), ('c', 'b')])),
+    'str-naked-first': ('string', '{T}b', lambda t: ('str', [('s', t), ('c', 'b')])),
+    'list-elem-quoted': ('list', '"{T}"', lambda t: ('lst', [('e', [('s', t)])])),
+    'list-elem-mixed': ('list', 'a{T} e', lambda t: ('lst', [('e', [('c', 'a'), ('s', t)]), ('e', [('c', 'e')])])),
+    'list-elem-last': ('list', 'e {T}', lambda t: ('lst', [('e', [('c', 'e')]), ('r', t)])),
+    'path-lone-quoted': ('path', '"{T}"', lambda t: path_ast_of_plain_argument([('s', t)])),
+    'path-first-then-text': ('path', '{T}post', lambda t: path_ast_of_plain_argument([('s', t), ('c', 'post')])),
+    'path-first-then-dot': ('path', '{T}.d/e', lambda t: path_ast_of_plain_argument([('s', t), ('c', '.d/e')])),
+    'path-first-then-ref': ('path', '{T}{T}', lambda t: path_ast_of_plain_argument([('s', t), ('s', t)])),
+    'path-first-then-ref-slash': ('path', '{T}@[TAB]@/x', lambda t: path_ast_of_plain_argument([('s', t), ('s', 'TAB'), ('c', '/x')])),
+    'path-first-slash-then-ref': ('path', '{T}/x{T}', lambda t: path_ast_of_plain_argument([('s', t), ('c', '/x'), ('s', t)])),
+    'path-middle': ('path', 'x{T}y', lambda t: path_ast_of_plain_argument([('c', 'x'), ('s', t), ('c', 'y')])),
+    'path-last': ('path', 'x/{T}', lambda t: path_ast_of_plain_argument([('c', 'x/'), ('s', t)])),
+    'path-after-slash-first': ('path', '/x/{T}', lambda t: path_ast_of_plain_argument([('c', '/x/'), ('s', t)])),
+    'rel-suffix-middle': ('path', '-rel-act x{T}y', lambda t: ('prelopt', 'REL_ACT', [('c', 'x'), ('s', t), ('c', 'y')])),
+    'rel-suffix-quoted': ('path', '-rel-tmp "{T}"', lambda t: ('prelopt', 'REL_TMP', [('s', t)])),
+    'rel-suffix-then-slash': ('path', '-rel-home {T}/x', lambda t: ('prelopt', 'REL_HDS_CASE', [('s', t), ('c', '/x')])),
+    'relsym-suffix': ('path', '-rel EXACTLY_ACT {T}', lambda t: ('prelsym', 'EXACTLY_ACT', [('s', t)])),
+    'relsym-suffix-then-slash': ('path', '-rel EXACTLY_TMP {T}/x', lambda t: ('prelsym', 'EXACTLY_TMP', [('s', t), ('c', '/x')])),
+}
+CONTEXTS = (['data', 'str', 'path-or-str', 'rel-base', 'file-name', 'list-elem', 'act-arg'] + sorted(POSITION_CONTEXTS) +
             ['L:' + t for t in sorted(LOGIC_CONST)])
 
 
@@ -599,6 +652,10 @@ def context_use(ctx, target, k):
     if ctx == 'list-elem':
         return 'setup', dict(kind='def', name='Z', tid='list', src='def list Z = @[%s]@ e' % target,
                              val=('lst', [('r', target), ('e', [('c', 'e')])]))
+    if ctx in POSITION_CONTEXTS:
+        tid, src, mk = POSITION_CONTEXTS[ctx]
+        return 'setup', dict(kind='def', name='Z', tid=tid, src='def %s Z = %s' % (tid, src.replace('{T}', '@[%s]@' % target)),
+                             val=mk(target))
     if ctx == 'act-arg':
         els = [('r', target), ('e', [('s', target), ('c', '!')])]
         return 'act', dict(kind='use', src='probe.sh @[%s]@ "@[%s]@!"' % (target, target), vals=[('lst', els)], act=True)
